@@ -139,7 +139,7 @@ Theorem sql_renders_diff : forall P plans,
   /\ (forall e, prefixed_baseline pfx plans = Err e -> (exists d, cmd_diff P = Ok d) -> cmd_sql P = Err (EBaseline e))
   /\ ((exists e, cmd_diff P = Err e) -> exists e, cmd_sql P = Err e).
 Proof.
-  intros P plans Hl pfx. unfold cmd_diff, cmd_sql. rewrite Hl. fold pfx.
+  intros P plans Hl pfx. unfold cmd_diff, cmd_sql, sql_core. rewrite Hl. fold pfx.
   destruct (load_models P) as [models|e0].
   2:{ split; [intros pb _; split; [split; intros H; discriminate H|]; split; [intros a H; discriminate H|intros v pa b H; discriminate H]|].
       split; [intros e _ [d H]; discriminate H|intros _; eauto]. }
